@@ -198,6 +198,241 @@ theorem reproject_prunes (src : XArr) (dst : GeoBox) (nd : Bool) (out : XArr)
             simpa using hk.1.2
     · cases h
 
+/-- the shape of the dims of a geo-registered array: `(time?) ydim xdim (band?)` -/
+def DimsShape (a : XArr) (sc : Option Crs) (pre post : List String) : Prop :=
+  a.dims = pre ++ [(dimsOf sc).1, (dimsOf sc).2] ++ post ∧ ∀ d ∈ pre ++ post, d = "time" ∨ d = "band"
+
+/-- what `assemble` returns when it succeeds, explicitly -/
+theorem assemble_ok_form (src : XArr) (dst : GeoBox) (nd : Bool) (out : XArr) (sd : String × String)
+    (hsd : spatialDims src.dims = some sd) (h : assemble src dst nd = .ok out) :
+    ∃ cs attrs, xrCoords (.lin dst) "spatial_ref" = .ok cs ∧
+      out = ⟨replaceDims src.dims sd (dimsOf dst.crs),
+        ((src.coords.filter (shouldKeep sd)).filter (fun kc => !(cs.map (·.1)).contains kc.1)) ++ cs,
+        some "spatial_ref", attrs⟩ := by
+  unfold assemble at h
+  simp only [hsd] at h
+  split at h
+  · split at h
+    · cases h
+    · split at h
+      · cases h
+      · rename_i cs hcs
+        simp only [Except.ok.injEq] at h
+        exact ⟨cs, _, hcs, h.symm⟩
+  · cases h
+
+/-- **reproject_geobox** — the DataArray assembled at the end of `_xr_reproject_da` (coords of the
+source that reference a spatial dim or look like a CRS coordinate dropped, `xr_coords(dst)` added,
+dims replaced) gives back **exactly the destination GeoBox** through `.odc.geobox`, CRS included:
+for every source array with dims `(time?) y x (band?)` (either dim-name pair) — whatever its
+coordinates, CRS-coordinate name, attributes, encoding or history were — and every destination
+GeoBox with a CRS and shape ≥ 1×1 (axis-aligned incl. mirrored, or rotated/sheared). -/
+theorem reproject_geobox (src : XArr) (sc : Option Crs) (pre post : List String) (dst : GeoBox) (c : Crs)
+    (nd : Bool) (out : XArr) (hshape : DimsShape src sc pre post)
+    (hcrs : dst.crs = some c) (hny : 1 ≤ dst.ny) (hnx : 1 ≤ dst.nx)
+    (halign : isAffineST dst.A = true → dst.A.b = 0 ∧ dst.A.d = 0)
+    (h : assemble src dst nd = .ok out) :
+    recover out = .ok (.lin dst) := by
+  obtain ⟨hdims, htb⟩ := hshape
+  have hguess : guessDims src.dims = some (dimsOf sc) := by rw [hdims]; exact guessDims_shape pre post sc htb
+  have hsd := spatialDims_of_guess _ _ hguess
+  obtain ⟨cs, attrs, hcs, hout⟩ := assemble_ok_form src dst nd out _ hsd h
+  have hypre : (dimsOf sc).1 ∉ pre := by
+    intro hm
+    have := htb _ (List.mem_append_left _ hm)
+    exact (dimsOf_not_tb sc _ this).1 rfl
+  have hdims' : replaceDims src.dims (dimsOf sc) (dimsOf dst.crs)
+      = pre ++ [(dimsOf dst.crs).1, (dimsOf dst.crs).2] ++ post := by
+    rw [hdims]
+    exact replaceDims_shape pre post _ _ _ hypre
+  have hcn : "spatial_ref" ∉ pre ++ [(dimsOf dst.crs).1, (dimsOf dst.crs).2] ++ post := by
+    intro hm
+    simp only [List.mem_append, List.mem_cons, List.not_mem_nil, or_false] at hm
+    rcases hm with (hm | hm) | hm
+    · rcases htb _ (List.mem_append_left _ hm) with h' | h' <;> exact absurd h' (by decide)
+    · rcases dimsOf_cases dst.crs with h' | h' <;> rw [h'] at hm <;> rcases hm with hm | hm <;>
+        exact absurd hm (by decide)
+    · rcases htb _ (List.mem_append_right _ hm) with h' | h' <;> exact absurd h' (by decide)
+  have hI := inv_assembled dst c hcrs (pre ++ [(dimsOf dst.crs).1, (dimsOf dst.crs).2] ++ post)
+    ((src.coords.filter (shouldKeep (dimsOf sc))).filter (fun kc => !(cs.map (·.1)).contains kc.1)) cs attrs hcs
+    (guessDims_shape pre post dst.crs htb) hcn
+    (fun k hk => lookup_filter_names_none _ k hk _)
+    (fun k c' => no_crs_in_kept _ _ _ k c')
+  rw [hout, hdims']
+  exact recover_of_inv_ident dst "spatial_ref" _ hI hny hnx (Or.inr (Or.inl (by rw [hcrs]; rfl))) halign
+
+/-- every history of admissible operations keeps the dims shape, so `reproject_geobox` applies to
+the result of any `wrap` + history (the quantifier of the property) -/
+theorem dimsShape_wrap (g : GeoBox) (nt nb : Option Nat) (cn : String) (attrs : List String) (a0 : XArr)
+    (hw : wrap (.lin g) nt nb cn attrs = .ok a0) :
+    ∃ pre post, DimsShape a0 g.crs pre post := by
+  simp only [wrap, srcDims, bind, Except.bind, pure, Except.pure] at hw
+  split at hw
+  · cases hw
+  · simp only [Except.ok.injEq] at hw
+    subst hw
+    refine ⟨_, _, rfl, ?_⟩
+    intro d hd
+    cases nt <;> cases nb <;> simp at hd <;> simp [hd]
+
+theorem dimsShape_step (a a' : XArr) (sc : Option Crs) (pre post : List String) (op : Op)
+    (hs : DimsShape a sc pre post) (hadm : op.admissible) (hop : applyOp a op = .ok a') :
+    ∃ pre' post', DimsShape a' sc pre' post' := by
+  obtain ⟨hd, htb⟩ := hs
+  cases op with
+  | arith => simp only [applyOp, Except.ok.injEq] at hop; subst hop; exact ⟨pre, post, hd, htb⟩
+  | astype => simp only [applyOp, Except.ok.injEq] at hop; subst hop; exact ⟨pre, post, hd, htb⟩
+  | pickle => simp only [applyOp, Except.ok.injEq] at hop; subst hop; exact ⟨pre, post, hd, htb⟩
+  | isel d ix =>
+    simp only [applyOp] at hop
+    split at hop
+    · cases hop
+    · split at hop
+      · cases hop
+      · cases ix with
+        | slc start stop step =>
+          simp only at hop
+          split at hop
+          · cases hop
+          · simp only [Except.ok.injEq] at hop
+            subst hop
+            exact ⟨pre, post, hd, htb⟩
+        | int i =>
+          have hdtb : d = "time" ∨ d = "band" := hadm
+          simp only at hop
+          split at hop
+          · cases hop
+          · simp only [Except.ok.injEq] at hop
+            subst hop
+            obtain ⟨hy, hx⟩ := dimsOf_not_tb sc d hdtb
+            refine ⟨pre.filter (· ≠ d), post.filter (· ≠ d), ?_, ?_⟩
+            · simp only [hd, List.filter_append, List.filter_cons, List.filter_nil]
+              simp [hy, hx]
+            · intro e he
+              rcases List.mem_append.mp he with he | he
+              · exact htb e (List.mem_append_left _ (List.mem_filter.mp he).1)
+              · exact htb e (List.mem_append_right _ (List.mem_filter.mp he).1)
+
+/-- **reproject_geobox_history** — `reproject_geobox` for the property's quantifier: wrap any
+GeoBox, apply any finite history of admissible operations, reproject to any destination GeoBox with
+a CRS: the recovered GeoBox is the destination. -/
+theorem reproject_geobox_history (g : GeoBox) (nt nb : Option Nat) (cn : String) (attrs : List String)
+    (ops : List Op) (a0 a : XArr) (dst : GeoBox) (c : Crs) (nd : Bool) (out : XArr)
+    (hw : wrap (.lin g) nt nb cn attrs = .ok a0) (hadm : ∀ op ∈ ops, op.admissible)
+    (hops : applyOps a0 ops = .ok a)
+    (hcrs : dst.crs = some c) (hny : 1 ≤ dst.ny) (hnx : 1 ≤ dst.nx)
+    (halign : isAffineST dst.A = true → dst.A.b = 0 ∧ dst.A.d = 0)
+    (h : assemble a dst nd = .ok out) :
+    recover out = .ok (.lin dst) := by
+  obtain ⟨pre0, post0, hs0⟩ := dimsShape_wrap g nt nb cn attrs a0 hw
+  have key : ∀ (ops : List Op) (a0 a : XArr) (pre post : List String), DimsShape a0 g.crs pre post →
+      (∀ op ∈ ops, op.admissible) → applyOps a0 ops = .ok a → ∃ pre' post', DimsShape a g.crs pre' post' := by
+    intro ops
+    induction ops with
+    | nil =>
+      intro a0 a pre post hs _ h
+      simp only [applyOps, Except.ok.injEq] at h
+      subst h
+      exact ⟨pre, post, hs⟩
+    | cons op rest ih =>
+      intro a0 a pre post hs hadm h
+      simp only [applyOps] at h
+      split at h
+      · cases h
+      · rename_i a1 h1
+        obtain ⟨p1, q1, hs1⟩ := dimsShape_step a0 a1 g.crs pre post op hs (hadm op List.mem_cons_self) h1
+        exact ih a1 a p1 q1 hs1 (fun o ho => hadm o (List.mem_cons_of_mem _ ho)) h
+  obtain ⟨pre, post, hs⟩ := key ops a0 a pre0 post0 hs0 hadm hops
+  exact reproject_geobox a g.crs pre post dst c nd out hs hcrs hny hnx halign h
+
+/-! ### the Dataset variant -/
+
+theorem mapM_ok_mem {α β : Type} (f : α → Res β) (l : List α) (out : List β) (h : l.mapM f = .ok out) :
+    ∀ y ∈ out, ∃ x ∈ l, f x = .ok y := by
+  induction l generalizing out with
+  | nil =>
+    simp only [List.mapM_nil, pure, Except.pure, Except.ok.injEq] at h
+    subst h
+    intro y hy
+    cases hy
+  | cons a t ih =>
+    rw [List.mapM_cons] at h
+    simp only [bind, Except.bind, pure, Except.pure] at h
+    split at h
+    · cases h
+    · rename_i b hb
+      split at h
+      · cases h
+      · rename_i bs hbs
+        simp only [Except.ok.injEq] at h
+        subst h
+        intro y hy
+        rcases List.mem_cons.mp hy with rfl | hy
+        · exact ⟨a, List.mem_cons_self, hb⟩
+        · obtain ⟨x, hx, hfx⟩ := ih bs hbs y hy
+          exact ⟨x, List.mem_cons_of_mem _ hx, hfx⟩
+
+/-- **reproject_geobox_ds / reproject_prunes_ds** — the Dataset built by `_xr_reproject_ds` (as
+repaired by 38c4bb2): its attrs carry no key of `SPATIAL_ATTRIBUTES`; every output variable comes
+from the source variable of the same name; every source variable that had a geobox (dims
+`(time?) y x (band?)`) yields a variable whose recovered GeoBox is **exactly the destination**,
+CRS included, with no `SPATIAL_ATTRIBUTES` key and `grid_mapping = spatial_ref`; a variable without
+geobox passes through with its dims and attrs untouched. -/
+theorem reproject_ds (attrs : List String) (vars : List (String × XArr)) (dst : GeoBox) (c : Crs)
+    (attrs' : List String) (out : List (String × XArr))
+    (hcrs : dst.crs = some c) (hny : 1 ≤ dst.ny) (hnx : 1 ≤ dst.nx)
+    (halign : isAffineST dst.A = true → dst.A.b = 0 ∧ dst.A.d = 0)
+    (h : assembleDs attrs vars dst = .ok (attrs', out)) :
+    (∀ k ∈ attrs', k ∉ spatialAttributes) ∧
+    ∀ nm o, (nm, o) ∈ out → ∃ v, (nm, v) ∈ vars ∧
+      ((recover v = .ok .nothing ∧ o.dims = v.dims ∧ o.attrs = v.attrs) ∨
+       ((∃ r, recover v = .ok r ∧ r ≠ .nothing) ∧
+         (∀ k ∈ o.attrs, k ∉ spatialAttributes) ∧ o.gridMapping = some "spatial_ref" ∧
+         (∀ sc pre post, DimsShape v sc pre post → recover o = .ok (.lin dst)))) := by
+  unfold assembleDs at h
+  simp only [bind, Except.bind, pure, Except.pure] at h
+  split at h
+  · cases h
+  · rename_i outs hm
+    simp only [Except.ok.injEq, Prod.mk.injEq] at h
+    obtain ⟨ha, ho⟩ := h
+    subst ha; subst ho
+    refine ⟨?_, ?_⟩
+    · intro k hk
+      simpa using (List.mem_filter.mp hk).2
+    · intro nm o hmem
+      obtain ⟨⟨nm', v⟩, hx, hfx⟩ := mapM_ok_mem _ _ _ hm (nm, o) hmem
+      unfold reprojectVar at hfx
+      simp only at hfx
+      split at hfx
+      · cases hfx
+      · rename_i hrec
+        simp only [Except.ok.injEq, Prod.mk.injEq] at hfx
+        obtain ⟨h1, h2⟩ := hfx
+        subst h1
+        refine ⟨v, hx, Or.inl ⟨hrec, ?_, ?_⟩⟩ <;> rw [← h2]
+      · rename_i r hnot hrec
+        cases has : assemble v dst false with
+        | error e => simp [has, Except.map] at hfx
+        | ok o' =>
+          simp only [has, Except.map, Except.ok.injEq, Prod.mk.injEq] at hfx
+          obtain ⟨h1, h2⟩ := hfx
+          subst h1; subst h2
+          obtain ⟨hp1, hp2⟩ := reproject_prunes v dst false o' has
+          refine ⟨v, hx, Or.inr ⟨⟨r, hrec, fun hr => hnot hr⟩, hp1, hp2, ?_⟩⟩
+          intro sc pre post hs
+          exact reproject_geobox v sc pre post dst c false o' hs hcrs hny hnx halign has
+
+/-- non-vacuity: a mirrored, strided slice of a geographic (time, latitude, longitude) array with a custom
+CRS-coordinate name, after arithmetic, reprojected to a rotated 1×3 destination: `assemble` succeeds and
+the destination comes back. -/
+example :
+    ((((wrap (.lin ⟨4, 5, ⟨2, 0, 10, 0, -2, 20⟩, some ⟨4326, true⟩⟩) (some 2) none "crs" ["crs", "keep"]).bind
+        (fun a => applyOps a [.isel "longitude" (.slc none none (some (-2))), .arith])).bind
+        (fun a => assemble a ⟨1, 3, ⟨3, 4, 100, 4, -3, 200⟩, some ⟨3857, false⟩⟩ false)).bind recover)
+      = .ok (.lin ⟨1, 3, ⟨3, 4, 100, 4, -3, 200⟩, some ⟨3857, false⟩⟩) := by
+  decide +kernel
+
 /-! ## GCP boxes -/
 
 /-- **roundtrip_gcp_points** — a GCP-registered array (identity pixel transform, CRS attached, any
